@@ -14,8 +14,16 @@
    * dict.update over the per-process dicts = the LAST per-process dict that has the key wins.
    * retrieve() collects namedtuples in a set; the model returns the sequence of add() calls,
      the harness forms the set on both sides.
-   * inet_ntop (bytes -> text) is not modelled: an address is its packed 4/16 bytes. *)
+   * inet_ntop (bytes -> text) is not modelled: an address is its packed 4/16 bytes.
+   Two switches ([variant]) distinguish the code as it is now ([current], both true) from the code before two
+   repairs ([before_repairs], both false; kept so that the old failures stay stated and replayable):
+     v_merge : get_all_inodes keeps the (pid, fd) pairs of every process      (fix d36edd1; before: dict.update)
+     v_exact : the UNIX name is what follows the single blank after the inode (fix 9cf9292; before: split(None, 7)[7]) *)
 From PV Require Export Base.Dec Gen.C11_Tables.
+
+Record variant := { v_merge : bool; v_exact : bool }.
+Definition current : variant := {| v_merge := true; v_exact := true |}.
+Definition before_repairs : variant := {| v_merge := false; v_exact := false |}.
 
 (* ------------------------------------------------------------ text-mode guard *)
 Definition uni_ws3 (c d e : Z) : bool :=
@@ -85,12 +93,18 @@ Definition pairs_of (d : flatdict) (ino : bytes) : list (Z * Z) :=
 Definition lookup1 (d : flatdict) (ino : bytes) : option (list (Z * Z)) :=
   match pairs_of d ino with [] => None | l => Some l end.
 
-(* inodes = {}; for pid in pids(): inodes.update(get_proc_inodes(pid)) -- later pid wins *)
+(* code before d36edd1: inodes = {}; for pid in pids(): inodes.update(get_proc_inodes(pid)) -- later pid wins *)
 Fixpoint lookup_all (ds : list flatdict) (ino : bytes) : option (list (Z * Z)) :=
   match ds with
   | [] => None
   | d :: r => match lookup_all r ino with Some l => Some l | None => lookup1 d ino end
   end.
+
+(* current code: for inode, pairs in proc_inodes.items(): inodes.setdefault(inode, []).extend(pairs) *)
+Definition lookup_merged (ds : list flatdict) (ino : bytes) : option (list (Z * Z)) :=
+  match flat_map (fun d => pairs_of d ino) ds with [] => None | l => Some l end.
+Definition lookup_v (v : variant) (ds : list flatdict) : bytes -> option (list (Z * Z)) :=
+  if v_merge v then lookup_merged ds else lookup_all ds.
 
 Fixpoint get_all_inodes (procs : list (Z * listing)) : outcome (list flatdict) :=
   match procs with
@@ -243,7 +257,14 @@ Fixpoint lstrip_nl (l : bytes) : bytes :=
   end.
 Definition rstrip_nl (l : bytes) : bytes := rev (lstrip_nl (rev l)).
 
-Definition unix_line (family : Z) (lk : imap) (filt : option Z) (line : bytes) : outcome (list row) :=
+(* rest.partition(' ')[2] *)
+Fixpoint after_space (l : bytes) : bytes :=
+  match l with
+  | [] => []
+  | c :: r => if c =? 32 then r else after_space r
+  end.
+
+Definition unix_line (v : variant) (family : Z) (lk : imap) (filt : option Z) (line : bytes) : outcome (list row) :=
   let tokens := split_ws line in
   match firstn 7 tokens with
   | [_; _; _; _; ty; _; inode] =>
@@ -255,7 +276,8 @@ Definition unix_line (family : Z) (lk : imap) (filt : option Z) (line : bytes) :
     match sel with
     | [] => Val []
     | _ =>
-      let path := if (8 <=? length tokens)%nat then rstrip_nl (rest_after 7 line) else [] in
+      let path := if v_exact v then rstrip_nl (after_space (rest_after 6 line))
+                  else if (8 <=? length tokens)%nat then rstrip_nl (rest_after 7 line) else [] in
       do t <- py_int ty;                               (* socktype_to_enum(int(type_)) *)
       Val (map (fun pf => {| r_fd := snd pf; r_family := family; r_type := t; r_laddr := APath path;
                              r_raddr := APath []; r_status := CONN_NONE; r_pid := fst pf |}) sel)
@@ -263,26 +285,26 @@ Definition unix_line (family : Z) (lk : imap) (filt : option Z) (line : bytes) :
   | _ => if contains 32 line then Exc RuntimeError else Val []
   end.
 
-Fixpoint unix_lines (family : Z) (lk : imap) (filt : option Z) (ls : list bytes) : outcome (list row) :=
+Fixpoint unix_lines (v : variant) (family : Z) (lk : imap) (filt : option Z) (ls : list bytes) : outcome (list row) :=
   match ls with
   | [] => Val []
   | l :: r =>
-    do x <- unix_line family lk filt l;
-    do xs <- unix_lines family lk filt r;
+    do x <- unix_line v family lk filt l;
+    do xs <- unix_lines v family lk filt r;
     Val (x ++ xs)
   end.
 
-Definition process_unix (content : option bytes) (family : Z) (lk : imap) (filt : option Z)
+Definition process_unix (v : variant) (content : option bytes) (family : Z) (lk : imap) (filt : option Z)
   : outcome (list row) :=
   match content with
   | None => OutOfModel
-  | Some c => if text_safe c then unix_lines family lk filt (tl (lines_keep c)) else OutOfModel
+  | Some c => if text_safe c then unix_lines v family lk filt (tl (lines_keep c)) else OutOfModel
   end.
 
 (* ------------------------------------------------------------ retrieve *)
 Definition proto := (bytes * Z * option Z)%type.
 
-Definition proto_rows (le : bool) (files : bytes -> option bytes) (lk : imap) (filt : option Z) (p : proto)
+Definition proto_rows (v : variant) (le : bool) (files : bytes -> option bytes) (lk : imap) (filt : option Z) (p : proto)
   : outcome (list row) :=
   let '(name, family, ty) := p in
   if (family =? AF_INET) || (family =? AF_INET6) then
@@ -290,36 +312,36 @@ Definition proto_rows (le : bool) (files : bytes -> option bytes) (lk : imap) (f
     | Some t => process_inet le (files name) (suffixb [54] name) family t lk filt
     | None => OutOfModel
     end
-  else process_unix (files name) family lk filt.
+  else process_unix v (files name) family lk filt.
 
-Fixpoint protos_rows (le : bool) (files : bytes -> option bytes) (lk : imap) (filt : option Z)
+Fixpoint protos_rows (v : variant) (le : bool) (files : bytes -> option bytes) (lk : imap) (filt : option Z)
          (ps : list proto) : outcome (list row) :=
   match ps with
   | [] => Val []
   | p :: r =>
-    do a <- proto_rows le files lk filt p;
-    do b <- protos_rows le files lk filt r;
+    do a <- proto_rows v le files lk filt p;
+    do b <- protos_rows v le files lk filt r;
     Val (a ++ b)
   end.
 
-Definition retrieve (le : bool) (files : bytes -> option bytes) (kind : bytes) (lk : imap) (filt : option Z)
+Definition retrieve (v : variant) (le : bool) (files : bytes -> option bytes) (kind : bytes) (lk : imap) (filt : option Z)
   : outcome (list row) :=
   do ps <- of_option KeyError (assoc kind gen_tmap);
-  protos_rows le files lk filt ps.
+  protos_rows v le files lk filt ps.
 
 (* ------------------------------------------------------------ public entry points *)
 Definition check_kind (kind : bytes) : outcome unit :=
   if existsb (beqb kind) (map fst gen_conn_tmap) then Val tt else Exc ValueError.
 
 (* psutil.net_connections(kind) *)
-Definition net_connections (le : bool) (files : bytes -> option bytes) (procs : list (Z * listing))
+Definition net_connections (v : variant) (le : bool) (files : bytes -> option bytes) (procs : list (Z * listing))
            (kind : bytes) : outcome (list row) :=
   do _ <- check_kind kind;
   do ds <- get_all_inodes procs;
-  retrieve le files kind (lookup_all ds) None.
+  retrieve v le files kind (lookup_v v ds) None.
 
 (* psutil.Process(pid).net_connections(kind) for a live process; rows are pconn (no pid field) *)
-Definition proc_net_connections (le : bool) (files : bytes -> option bytes) (pid : Z) (ls : listing)
+Definition proc_net_connections (v : variant) (le : bool) (files : bytes -> option bytes) (pid : Z) (ls : listing)
            (kind : bytes) : outcome (list row) :=
   do _ <- check_kind kind;
   match ls with
@@ -329,6 +351,6 @@ Definition proc_net_connections (le : bool) (files : bytes -> option bytes) (pid
     do d <- get_proc_inodes pid ents;
     match d with
     | [] => Val []
-    | _ => retrieve le files kind (lookup1 d) (Some pid)
+    | _ => retrieve v le files kind (lookup1 d) (Some pid)
     end
   end.
